@@ -18,13 +18,17 @@ var Includes = map[string][]string{
 	"C04": {"C01.codes", "C01.widths", "C01.array-tables", "C01.chunk-header", "C01.time-table", "C02.", "C05.", "C06.", "C19.", "C20.tracker", "C20.check-before-descend", "C21.", "C22.float-order", "C23.", "C24.", "C25.", "C26.shift-offset", "C26.total", "C26.consumers"},
 	"C05": {"C20.check-before-descend", "C20.tracker", "C21.omit-table", "C21.stable-order", "C26.shift-offset", "C16.fresh-per-call"},
 	"C06": {"C13.builder", "C19.", "C20.setter-pointers", "C26.consumers", "C04.wrapper-shape", "C04.units"},
-	"C07": {"C28.raw-reader"},
+	"C07": {"C28.raw-reader", "C20.check-before-descend"},
 	"C16": {"C23.begin-resets"},
 	"C17": {"C07.waitgroup"},
 	"C20": {"C06.references", "C06.retained-bytes", "C05.marker-ids", "C05.pairing", "C16.reset", "C16.fresh-per-call", "C06.unstack-self", "C06.siblings", "C04.wrapper-shape"},
 	"C23": {"C02.encoder-state", "C25.hex-noprefix", "C29.no-dropped-error"},
 	"C24": {"C25.chain"},
 	"C25": {"C24.specials", "C24.range", "C24.separators", "C24.base0", "C23.separator"},
+	"C13": {"C06.retained-bytes"},
+	"C15": {"C16.fresh-per-call"},
+	"C22": {"C01.encoder-state"},
+	"C14": {"C10.dispatch"},
 	"C26": {"C05.array-index"},
 }
 
